@@ -74,15 +74,28 @@ class Prop:
             ctx.count('class:' + c)
         self.oracle(ctx, cs, outs)
 
+    def members(self):
+        """member values of the library's enumeration classes (the enumerations are part of its API)"""
+        import enum
+        out = []
+        for name, c in vars(impl.K).items():
+            if isinstance(c, type) and issubclass(c, enum.Enum) and c is not enum.Enum:
+                try:
+                    vals = [str(int(m.value)) for m in c]
+                except (TypeError, ValueError):
+                    continue
+                if vals:
+                    out.append('%s:%s' % (name, ','.join(vals)))
+        return ';'.join(out) or '-'
+
     def oracle(self, ctx, cs, outs):
-        """the implementation's answer against the layout specification"""
-        if not ctx.model_available:
-            ctx.notes.append('spec.check unavailable (driver not built)')
-            return
+        """the implementation's answer against the layout specification (specification driver: it does
+        not depend on the tables generated from the source)"""
+        mem = self.members()
         q = []
         for (c, f, b), o in zip(cs, outs):
-            q.append('spec.check %s %s' % (b, o if not o.startswith('ERR:') else 'ERR|'))
-        res = common.run_model(q)
+            q.append('spec.check %s %s %s' % (b, o if not o.startswith('ERR:') else 'ERR|', mem))
+        res = common.run_spec(q)
         for (c, f, b), o, r in zip(cs, outs, res):
             if o.startswith('ERR:'):
                 if not r.startswith('REJECT:') or r[7:] != o[4:]:
